@@ -87,7 +87,8 @@ def word_calls(F, m, words):
 
 
 def is_take(c):
-    return "core::option::Option<u16>" in c.local_ty(0)
+    """a primitive that hands an index out: takes only the queue word, returns Option<index> (a bare u16 or a private wrapper of one)"""
+    return c.body["argc"] == 1 and c.local_ty(0).startswith("core::option::Option<")
 
 
 def is_give(t):
